@@ -39,14 +39,11 @@ impl<T: PartialEq> PartialEq for NumbatList<T> {
         if self.len() != other.len() {
             return false;
         }
-        // Second best case, the other slice comes from the same allocation and
-        // has the same view => they are equal
-        if Arc::ptr_eq(&self.alloc, &other.alloc) && self.view == other.view {
-            true
-        } else {
-            // Worst case scenario, we need to compare all the elements one by one
-            self.iter().zip(other.iter()).all(|(l, r)| l == r)
-        }
+        // Otherwise, we need to compare all the elements one by one. Two lists that
+        // share their allocation and view are not necessarily equal: an element
+        // like NaN is not equal to itself, and the result must not depend on
+        // whether the two lists happen to share their storage.
+        self.iter().zip(other.iter()).all(|(l, r)| l == r)
     }
 }
 
